@@ -59,9 +59,60 @@ def unique_arity(rep, M, rid):
         raise AnalysisError(f"np.unique calls in SymmetryAnalyzer: {n} recognised (>= 2 confirmed by hand)")
 
 
+def observed_scope(rep, M):
+    """names of the SymmetryAnalyzer methods reachable from the getters the running property observes (None: no restriction). A defect in a
+    method outside this set - a method of another property's getters, or one nothing calls - cannot change what this property observes."""
+    obs = OBSERVABLES.get(getattr(rep, "pid", None))
+    if not obs:
+        return None
+    return {q.split(".")[-1] for q in M.reachable([SA + "." + o for o in obs]) if M.parent.get(q) == SA}
+
+
+def _scoped_violation(rep, M, scope, rid, fname, construct, msg, where):
+    if scope is not None and fname not in scope:
+        rep.note(f"{rid}: {construct}: {msg[:120]} - in a method no getter observed by this property reaches; not reported here ({where})")
+    else:
+        rep.violation(rid, construct, msg, where)
+
+
+def memo_read_once(M, getter, owner):
+    """True when the memo behind SymmetryAnalyzer.<getter> has a single consumer that runs at most once per analysed structure: every call of
+    the getter from a method some public method reaches sits in <owner>, <owner> starts with its own memo guard (`if self.X is not None:
+    return self.X`) and nothing else reads the attribute. Changing the memoised object in place inside <owner> is then not observable."""
+    cls = M.cls(SA)
+    meth = {f.name: f for f in cls.body if isinstance(f, ast.FunctionDef)}
+    if getter not in meth or owner not in meth:
+        return False
+    public = [SA + "." + n for n in meth if not n.startswith("_")]
+    live = {q.split(".")[-1] for q in M.reachable(public) if M.parent.get(q) == SA}
+    memo = {norm(r.value) for r in ast.walk(meth[getter]) if isinstance(r, ast.Return) and r.value is not None and norm(r.value).startswith("self._")}
+    if len(memo) != 1:
+        return False
+    attr = next(iter(memo))[len("self."):]
+    for name in live:
+        f = meth[name]
+        for x in ast.walk(f):
+            if isinstance(x, ast.Call) and isinstance(x.func, ast.Attribute) and x.func.attr == getter and name not in (owner, getter):
+                return False
+            if isinstance(x, ast.Attribute) and x.attr == attr and isinstance(x.ctx, ast.Load) and name not in (getter,):
+                return False
+    first = [s for s in meth[owner].body if not (isinstance(s, ast.Expr) and isinstance(s.value, ast.Constant))][:1]
+    if not first or not isinstance(first[0], ast.If) or not first[0].body or not isinstance(first[0].body[0], ast.Return):
+        return False
+    t, r = norm(first[0].test), norm(first[0].body[0].value) if first[0].body[0].value is not None else ""
+    if not (r.startswith("self._") and t in (f"{r} is not None", f"{r} != None")):
+        return False
+    # the owner's memo is stored on every path that returns normally after the getter was called
+    stores = [s for s in ast.walk(meth[owner]) if isinstance(s, ast.Assign) and any(norm(tt) == r for tt in s.targets)
+              and not (isinstance(s.value, ast.Constant) and s.value.value is None)]
+    rets = [x for x in ast.walk(meth[owner]) if isinstance(x, ast.Return) and x is not first[0].body[0]]
+    return bool(stores) and len(stores) >= len(rets)
+
+
 def index_spaces(rep, M, rid):
     unique_arity(rep, M, rid)
     cls = M.cls(SA)
+    scope = observed_scope(rep, M)
     meth = {f.name: f for f in cls.body if isinstance(f, ast.FunctionDef)}
     ret = {}
     errors = []
@@ -150,8 +201,8 @@ def index_spaces(rep, M, rid):
     for fname, s, msg in errors:
         if (fname, msg) not in seen:
             seen.add((fname, msg))
-            rep.violation(rid, f"{fname}: {norm(s)[:70]}", msg + ": atoms are silently mislabelled whenever the input is not "
-                          "already the conventional cell", M.where(SA + "." + fname, s))
+            _scoped_violation(rep, M, scope, rid, fname, f"{fname}: {norm(s)[:70]}", msg + ": atoms are silently mislabelled whenever the input is not "
+                              "already the conventional cell", M.where(SA + "." + fname, s))
     for name, exp in EXPECT.items():
         got = ret.get(name)
         if any(e[0] == name for e in errors):
@@ -163,8 +214,8 @@ def index_spaces(rep, M, rid):
         else:
             def show(t):
                 return f"array over {SPACE[t[1]]} atoms" if t[0] == "arr" else f"map {SPACE.get(t[1], t[1])} -> {SPACE.get(t[2], t[2])}" if t[0] == "map" else str(t)
-            rep.violation(rid, f"{name}: index space", f"returns an {show(got)}, its name and callers require an {show(exp)}",
-                          M.where(SA + "." + name))
+            _scoped_violation(rep, M, scope, rid, name, f"{name}: index space", f"returns an {show(got)}, its name and callers require an {show(exp)}",
+                              M.where(SA + "." + name))
     # _get_primitive_system: one mask, Conv-indexed, applied to positions, numbers, letters and equivalence
     r, env = run("_get_primitive_system")
     f = meth["_get_primitive_system"]
@@ -178,10 +229,10 @@ def index_spaces(rep, M, rid):
     if mask == ("map", "P", "C") and len(masks) == 1 and None not in per_atom and per_atom <= targets:
         rep.ok(rid, "_get_primitive_system: positions, numbers, letters and equivalence sliced by one section primitive -> conventional")
     elif mask != ("map", "P", "C"):
-        rep.violation(rid, "_get_primitive_system: atom selection", f"the selection mask has index type {mask}; required a section "
+        _scoped_violation(rep, M, scope, rid, "_get_primitive_system", "_get_primitive_system: atom selection", f"the selection mask has index type {mask}; required a section "
                       "primitive -> conventional of std_mapping_to_primitive (np.unique(..., return_index=True)[1])", M.where(SA + "._get_primitive_system"))
     else:
-        rep.violation(rid, "_get_primitive_system: consistent slicing", f"arrays are sliced by different masks {sorted(masks)} or not all of "
+        _scoped_violation(rep, M, scope, rid, "_get_primitive_system", "_get_primitive_system: consistent slicing", f"arrays are sliced by different masks {sorted(masks)} or not all of "
                       f"positions/numbers/letters/equivalence are sliced ({sorted(targets)})", M.where(SA + "._get_primitive_system"))
 
     memo_spaces(rep, M, rid)
@@ -202,6 +253,7 @@ def memo_spaces(rep, M, rid):
     states, and every public per-atom getter hands out the memo of its own kind and space"""
     cls = M.cls(SA)
     meth = {f.name: f for f in cls.body if isinstance(f, ast.FunctionDef)}
+    scope = observed_scope(rep, M)
 
     def attr_space(name):
         sp = [v for k, v in SPACE_TOKEN.items() if k in name.split("_")]
@@ -272,17 +324,17 @@ def memo_spaces(rep, M, rid):
                 n_assign += 1
                 if isinstance(s.value, ast.Name) and len(multi.get(s.value.id, ())) > 1:
                     wrong = sorted(multi[s.value.id] - {a[0]})
-                    rep.violation(rid, f"{fname}: `{norm(s)}`", f"`{s.value.id}` holds an array over the {' / '.join(SPACE[w] for w in wrong)} atoms on one branch and over the "
+                    _scoped_violation(rep, M, scope, rid, fname, f"{fname}: `{norm(s)}`", f"`{s.value.id}` holds an array over the {' / '.join(SPACE[w] for w in wrong)} atoms on one branch and over the "
                                   f"{SPACE[a[0]]} atoms on another, and is stored as the memo of the {SPACE[a[0]]} cell: equal length does not mean equal atom order (spglib lists "
                                   "the standardised atoms of centred lattices interleaved), so letters / orbit ids end up on the wrong atoms", M.where(SA + "." + fname, s))
                     continue
                 if isinstance(v, tuple) and v[0] == "ERR":
-                    rep.violation(rid, f"{fname}: `{norm(s)}`", f"the array is derived by _get_primitive_system from an input over the "
+                    _scoped_violation(rep, M, scope, rid, fname, f"{fname}: `{norm(s)}`", f"the array is derived by _get_primitive_system from an input over the "
                                   f"{SPACE.get(v[1], v[1])} atoms instead of the conventional atoms", M.where(SA + "." + fname, s))
                 elif v == a[0]:
                     rep.ok(rid, f"{fname}: self.{t.attr} <- array over the {SPACE[a[0]]} atoms")
                 elif v in SPACE:
-                    rep.violation(rid, f"{fname}: `{norm(s)}`", f"the memo of the *{SPACE[a[0]]}* cell is assigned an array with one entry per "
+                    _scoped_violation(rep, M, scope, rid, fname, f"{fname}: `{norm(s)}`", f"the memo of the *{SPACE[a[0]]}* cell is assigned an array with one entry per "
                                   f"*{SPACE[v]}* atom: for centred lattices the lengths differ by the centring multiplicity and the entries "
                                   "do not line up with the atoms of the system handed out next to them", M.where(SA + "." + fname, s))
                 elif fname.startswith("_get_spglib_"):
@@ -306,7 +358,7 @@ def memo_spaces(rep, M, rid):
                 if b == a:
                     rep.ok(rid, f"{fname} returns self.{r.value.attr}")
                 else:
-                    rep.violation(rid, f"{fname}: `{norm(r)}`", f"hands out the memo `{r.value.attr}`, not the {a[1].replace('_', ' ')} of the "
+                    _scoped_violation(rep, M, scope, rid, fname, f"{fname}: `{norm(r)}`", f"hands out the memo `{r.value.attr}`, not the {a[1].replace('_', ' ')} of the "
                                   f"{SPACE[a[0]]} cell", M.where(SA + "." + fname, r))
     if n_assign < 6 or n_get < 4:
         raise AnalysisError(f"memo index spaces: only {n_assign} typed memo assignments / {n_get} getters found (expected >= 6 / 4)")
